@@ -27,7 +27,7 @@ class KInst:
                     D=None if self.X is not None else [list(map(float, r)) for r in self.D])
 
 
-def gen_kinst(rng, nmin=2, nmax=10, m=0, labelled=False, kinds=("feat", "lattice", "dup", "mat", "jitter")):
+def gen_kinst(rng, nmin=2, nmax=10, m=0, labelled=False, kinds=("feat", "lattice", "dup", "mat", "jitter", "outlier")):
     kind = rng.choice(kinds)
     n = rng.randint(nmin, nmax)
     N = n + m
@@ -42,6 +42,8 @@ def gen_kinst(rng, nmin=2, nmax=10, m=0, labelled=False, kinds=("feat", "lattice
             alphabet = [v * 10.0 ** rng.choice([-4, -5, -6, -8, -12]) for v in alphabet]
         return KInst("mat", None, gen_matrix(rng, N, alphabet), n, m, None, labels)
     metric = rng.choice(PLAIN_METRICS + (POS_METRICS if kind == "feat" else []))
+    if kind == "outlier":
+        metric = rng.choice(["euclidean", "manhattan", "squared_euclidean", "chebyshev"])
     pos = metric in POS_METRICS
     dim = rng.randint(1, 3)
     for _ in range(50):
@@ -55,6 +57,10 @@ def gen_kinst(rng, nmin=2, nmax=10, m=0, labelled=False, kinds=("feat", "lattice
         elif kind == "dup":
             base = [[rng.random() * 10 for _ in range(dim)] for _ in range(max(1, N // 2))]
             X = [list(rng.choice(base)) for _ in range(N)]
+        elif kind == "outlier":
+            # ordinary points plus one very distant training sample: it stretches the density normalisation
+            X = [[float(rng.randint(0, 9)) for _ in range(dim)] for _ in range(N)]
+            X[rng.randrange(n)] = [10.0 ** rng.choice([3, 4, 5]) for _ in range(dim)]
         else:
             X = [[(rng.random() * 9 + 0.5) if pos else (rng.random() * 20 - 10) for _ in range(dim)] for _ in range(N)]
             for i in range(n, N):
